@@ -21,7 +21,7 @@ def _alarm(s, f):
 
 def cases(tier):
     d = {
-        "gauss": [(150, 40), (60, 15), (30, 60)], "uniform": [(20, 200), (100, 130)], "schulz_zimm": [(260, 200), (150, 100)],
+        "gauss": [(150, 40), (60, 15), (30, 60), (100, 30)], "uniform": [(20, 200), (100, 130)],      # gauss(100, 30) and uniform(100, 130): the same loc / scale in two families "schulz_zimm": [(260, 200), (150, 100)],
         "log_normal": [(120, 1.3), (80, 1.05)], "poisson": [(100,), (40,)], "flory_schulz": [(0.02,), (0.05,)],
     }
     if tier == "thorough":
@@ -46,6 +46,9 @@ def cases(tier):
     out.append(("double", [("uniform", (50, 400), "C[18OH0]"), ("log_normal", (200, 1.2), "[13CH2][13CH2]")]))
     out.append(("endstart", [("gauss", (120, 30), "C(C)C")]))
     out.append(("endstart", [("log_normal", (100, 1.2), "C(C)C")]))
+    # starting end groups of different mass, chosen in turn on the SAME object: the start group's mass never counts in the block
+    out.append(("endstart2", [("gauss", (120, 30), "C(C)C")]))
+    out.append(("endstart2", [("uniform", (60, 300), "CC")]))
     return out
 
 
@@ -61,18 +64,22 @@ def molecule_text(kind, blocks):
         (f1, p1, u1), (f2, p2, u2) = blocks
         return f"C[>]{{[>][<]{u1}[>][<]}}{dist_text(f1, p1)}{{[>][<]{u2}[>][<]}}{dist_text(f2, p2)}[<]N"
     (fam, par, u), = blocks
+    if kind == "endstart2":
+        return f"{{[][<]{u}[>];[<][H],[<]Br,[>][H][]}}{dist_text(fam, par)}"
     return f"{{[][<]{u}[>];[<][H],[>][H][]}}{dist_text(fam, par)}"
 
 
 def script_value(fam, ref, u):
-    """what the scripted generator answers so that the draw happens at quantile u, and the reference target"""
+    """what the scripted generator answers so that the draw happens at quantile u - whichever way the code asks (uniform(), standard_normal(),
+    poisson(lam) for the Poisson law) -, and the reference target"""
+    ans = {"uniform": u, "random": u, "standard_normal": R.phi_inv(u)}
     if fam == "gauss":
-        z = R.phi_inv(u)
-        return z, ref.mu + ref.sigma * z
+        return ans, ref.mu + ref.sigma * R.phi_inv(u)
     if fam == "poisson":
         k = ref.quantile(u)
-        return k, float(k)
-    return u, ref.quantile(u)
+        ans["poisson"] = k
+        return ans, float(k)
+    return ans, ref.quantile(u)
 
 
 def run(tier):
@@ -104,13 +111,13 @@ def run(tier):
             sweeps = [[u] for u in grid]
         else:
             sweeps = [[u, 0.37] for u in grid] + [[0.61, u] for u in grid[:: 2]]
-        for us in sweeps:
+        for i_sweep, us in enumerate(sweeps):
             vals, targets = [], []
             for (fam, par, _), ref, u in zip(blocks, refs, us):
                 a, t = script_value(fam, ref, u)
                 vals.append(a)
                 targets.append(t)
-            rng = ScriptedRNG([], qseq=vals)
+            rng = ScriptedRNG([i_sweep % 2] if kind == "endstart2" else [], qseq=vals)
             X.Tap.current = rng
             try:
                 signal.alarm(180)
@@ -149,7 +156,7 @@ def run(tier):
                 if t >= 0 and abs(t - round(t / m) * m) < delta:
                     skipped_edge += 1
                     continue
-                uu = R.phi(vals[b]) if fam == "gauss" else u
+                uu = u
                 records.append({"kind": "block", "u": sc(uu), "n": int(n_obs), "lo": table_at(ref, m, n_obs - 1), "hi": table_at(ref, m, n_obs), "tol": 0})
                 meta.append((text, b, fam, par, u, t, n_obs, draws[b]["val"]))
                 if len(samples) < 5 and b == 0 and abs(u - 0.5) < 0.02:
